@@ -103,6 +103,16 @@ CLAIMS = {
         "(geocentric_position, Sun.apparent_geocentric_position, equatorial2ecliptical) into the five-point stencils.",
    technique="TLA+ finder protocol (action property over sorted query traces) + event-reality stencils judged by TLC",
    ref="5/C13"),
+ "C15": dict(
+   text="Trace_Moon.tla validates daily lunar positions (range invariants, parallax identity, illuminated fraction against the "
+        "Sun-Earth-Moon triangle computed by TLC from witnesses it verifies, daily motion and secular node/perigee rates as "
+        "action properties over consecutive events) and the four lunar finders with the finder protocol of Finders.tla (never "
+        "backwards, one month apart, within 1.6 months, total on every calendar day of sample years in both calendars) plus "
+        "event reality on the library's own positions.",
+   note="Trusted: TLC, Fix.tla, math.sin/cos/sqrt for witnesses (unit norm and square verified by the spec), wiring of "
+        "Moon.apparent_ecliptical_pos / Sun.apparent_geocentric_position into the checks.",
+   technique="TLA+ orbit invariants + finder protocol as action properties; trace validation with verified witnesses",
+   ref="5/C15"),
 }
 
 PENDING_REASON = "check not built yet in this round (specification module planned in DESIGN.md section 5); not claimed until its trace specification validates the unchanged tree"
